@@ -42,12 +42,12 @@ ASSUMPTIONS = [
     "scheduler calls, starvation counters; private attributes are read for canonicalisation only",
 ]
 MIN = {"quick": {"states": 150000, "nontrivial": 145000, "outcomes": 7},
-       "thorough": {"states": 700000, "nontrivial": 700000, "outcomes": 7, "shards_searched_to_closure": 42}}
+       "thorough": {"states": 775000, "nontrivial": 770000, "outcomes": 7, "shards_searched_to_closure": 42}}
 
 BEH6 = ("V", "D", "S", "R", "Ds", "Df")
 BEH9 = BEH6 + ("P", "X", "XS")     # the iterator pauses / stops its own task from inside next(), then yields / finishes
 BEH4 = ("V", "D", "S", "R")
-CLOSURE = 60      # deeper than the deepest reachable canonical state (17 measured): the search runs until no new state appears
+CLOSURE = 60      # deeper than the deepest reachable canonical state (18 measured): the search runs until no new state appears
 TIERS = {"quick": [(1, 6, BEH9), (2, 6, BEH6)],
          "thorough": [(1, CLOSURE, BEH9), (2, CLOSURE, BEH6), (3, CLOSURE, BEH4)]}
 MAXTASKS = 3
